@@ -1,4 +1,5 @@
 import PnVerif.Lemmas.ToolsSound
+import PnVerif.Lemmas.ToolsDiff
 import PnVerif.Lemmas.Accept
 import PnVerif.Props.C04
 /-
@@ -90,8 +91,228 @@ example : ∃ info, vGetNC (encodeRaw PnVerif.Props.C04.exampleHdr) = .ok (PnVer
   ⟨{ xsz := 168, beginVar := 400, beginRec := 512, recsize := 3, numRecVars := 1, shapes := [[3], [0, 3]], lens := [12, 4] },
    by rfl, by decide⟩
 
+/-! ## cdfdiff / ncmpidiff
+
+  `toolDiff cfg a b` is the transcription of the comparison loops of cdfdiff.c (`cdfdiffCfg`) and ncmpidiff.c
+  (`ncmpidiffCfg`) on the view `absFile` both tools have of a file (nothing of the layout is left in it: values
+  are read at each file's own offsets).  `LogicalEq` is the specification: same format version and same names,
+  types, shapes, attributes and values, whatever the definition order. -/
+
+/-- `diff_refl`: a file never differs from itself (either tool) -/
+theorem diff_refl (cfg : DiffCfg) (a : LFile) (wa : LWF a) : toolDiff cfg a a = .counts 0 0 :=
+  toolDiff_of_logicalEq cfg a a wa wa (LogicalEq.refl a)
+
+/-- "no difference reported" is complete: files with the same format and the same logical content are never
+    reported different, by either tool, whatever their layouts and definition orders (no hypothesis on types,
+    record counts or the tool) -/
+theorem diff_complete (cfg : DiffCfg) (a b : LFile) (wa : LWF a) (wb : LWF b) (E : LogicalEq a b) :
+    (toolDiff cfg a b).same = true :=
+  (same_iff _).mpr (toolDiff_of_logicalEq cfg a b wa wb E)
+
+/-- Full-strength statement of `diff_iff_logical_eq` for a tool: no difference is reported EXACTLY when the two
+    files have the same format and the same logical content. -/
+def diff_iff_logical_eq_Statement (cfg : DiffCfg) : Prop :=
+  ∀ a b : LFile, LWF a → LWF b → ((toolDiff cfg a b).same = true ↔ LogicalEq a b)
+
+/-- witness of finding C20-F1: B = A plus one more record -/
+def recA : LFile :=
+  { fmt := .cdf1, numrecs := 2, dims := [⟨[0x74], 0⟩, ⟨[0x78], 3⟩], gatts := [⟨[0x67], .char, 2, [104, 105]⟩],
+    vars := [{ name := [0x76], xtype := .byte, dims := [⟨[0x74], 0⟩, ⟨[0x78], 3⟩], isRec := true, atts := [],
+               data := fun r => if r < 2 then [UInt8.ofNat r, 7, 7] else [] }] }
+def recB : LFile :=
+  { fmt := .cdf1, numrecs := 3, dims := [⟨[0x74], 0⟩, ⟨[0x78], 3⟩], gatts := [⟨[0x67], .char, 2, [104, 105]⟩],
+    vars := [{ name := [0x76], xtype := .byte, dims := [⟨[0x74], 0⟩, ⟨[0x78], 3⟩], isRec := true, atts := [],
+               data := fun r => if r < 3 then [UInt8.ofNat r, 7, 7] else [] }] }
+/-- witness of finding C20-F2: one value of an NC_BYTE variable changed -/
+def recC : LFile :=
+  { fmt := .cdf1, numrecs := 2, dims := [⟨[0x74], 0⟩, ⟨[0x78], 3⟩], gatts := [⟨[0x67], .char, 2, [104, 105]⟩],
+    vars := [{ name := [0x76], xtype := .byte, dims := [⟨[0x74], 0⟩, ⟨[0x78], 3⟩], isRec := true, atts := [],
+               data := fun r => if r < 2 then [UInt8.ofNat r, 9, 7] else [] }] }
+
+theorem recA_wf : LWF recA := by
+  refine ⟨by unfold UniqueNames; decide, ⟨by unfold UniqueNames; decide, by decide⟩, by unfold UniqueNames; decide, ?_⟩
+  intro v hv
+  simp only [recA, List.mem_singleton] at hv
+  subst hv
+  exact ⟨by unfold UniqueNames; decide, by decide⟩
+theorem recB_wf : LWF recB := by
+  refine ⟨by unfold UniqueNames; decide, ⟨by unfold UniqueNames; decide, by decide⟩, by unfold UniqueNames; decide, ?_⟩
+  intro v hv
+  simp only [recB, List.mem_singleton] at hv
+  subst hv
+  exact ⟨by unfold UniqueNames; decide, by decide⟩
+theorem recC_wf : LWF recC := by
+  refine ⟨by unfold UniqueNames; decide, ⟨by unfold UniqueNames; decide, by decide⟩, by unfold UniqueNames; decide, ?_⟩
+  intro v hv
+  simp only [recC, List.mem_singleton] at hv
+  subst hv
+  exact ⟨by unfold UniqueNames; decide, by decide⟩
+
+/-- cdfdiff: refuted (it runs over the first file's record count only and never compares numrecs) -/
+theorem diff_iff_logical_eq_counterexample_cdfdiff : ¬ diff_iff_logical_eq_Statement cdfdiffCfg := by
+  intro hS
+  have h1 : (toolDiff cdfdiffCfg recA recB).same = true := by decide
+  have := ((hS recA recB recA_wf recB_wf).mp h1).numrecs
+  exact absurd this (by decide)
+
+/-- ncmpidiff: refuted (no `case NC_BYTE`) -/
+theorem diff_iff_logical_eq_counterexample_ncmpidiff : ¬ diff_iff_logical_eq_Statement ncmpidiffCfg := by
+  intro hS
+  have h1 : (toolDiff ncmpidiffCfg recA recC).same = true := by decide
+  have E := (hS recA recC recA_wf recC_wf).mp h1
+  have := (E.vars [0x76] _ _ rfl rfl).data 0 (by decide)
+  exact absurd this (by decide)
+
+/-- `diff_iff_logical_eq_partial`: with exactly the hypotheses the two findings call for — equal record counts,
+    nothing of a type the tool skips in the first file, the tool's view of dimension lengths faithful — no
+    difference is reported exactly when the files have the same format and the same logical content.  All
+    definition orders, all layouts, all types and shapes, any number of dimensions/attributes/variables. -/
+theorem diff_iff_logical_eq_partial (cfg : DiffCfg) (a b : LFile) (wa : LWF a) (wb : LWF b) (nb : NoByte cfg a)
+    (ag : LenAgree cfg a b) (hn : a.numrecs = b.numrecs) :
+    (toolDiff cfg a b).same = true ↔ LogicalEq a b :=
+  ⟨fun h => logicalEq_of_toolDiff cfg a b wa wb nb ag hn ((same_iff _).mp h), fun E => diff_complete cfg a b wa wb E⟩
+
+/-- for cdfdiff the only hypothesis left is the record count -/
+theorem cdfdiff_iff_logical_eq (a b : LFile) (wa : LWF a) (wb : LWF b) (hn : a.numrecs = b.numrecs) :
+    (toolDiff cdfdiffCfg a b).same = true ↔ LogicalEq a b :=
+  diff_iff_logical_eq_partial cdfdiffCfg a b wa wb
+    ⟨fun h => absurd h (by decide), fun _ _ => ⟨fun h => absurd h (by decide), fun h => absurd h (by decide)⟩⟩
+    (lenAgree_of_stored _ a b rfl) hn
+
+/-- Full-strength statement of `diff_symm` -/
+def diff_symm_Statement (cfg : DiffCfg) : Prop :=
+  ∀ a b : LFile, LWF a → LWF b → (toolDiff cfg a b).same = (toolDiff cfg b a).same
+
+/-- cdfdiff A B reports nothing, cdfdiff B A reports a read-size difference -/
+theorem diff_symm_counterexample_cdfdiff : ¬ diff_symm_Statement cdfdiffCfg := by
+  intro hS
+  have := hS recA recB recA_wf recB_wf
+  exact absurd this (by decide)
+
+/-- `diff_symm_partial` -/
+theorem diff_symm_partial (cfg : DiffCfg) (a b : LFile) (wa : LWF a) (wb : LWF b) (ra : RecByDims a) (rb : RecByDims b)
+    (na : NoByte cfg a) (nb : NoByte cfg b) (ag : LenAgree cfg a b) (ag' : LenAgree cfg b a) (hn : a.numrecs = b.numrecs) :
+    (toolDiff cfg a b).same = (toolDiff cfg b a).same := by
+  have h1 := diff_iff_logical_eq_partial cfg a b wa wb na ag hn
+  have h2 := diff_iff_logical_eq_partial cfg b a wb wa nb ag' hn.symm
+  cases hx : (toolDiff cfg a b).same <;> cases hy : (toolDiff cfg b a).same
+  · rfl
+  · exact absurd (h1.mpr (LogicalEq.symm rb ra (h2.mp hy))) (by rw [hx]; simp)
+  · exact absurd (h2.mpr (LogicalEq.symm ra rb (h1.mp hx))) (by rw [hy]; simp)
+  · rfl
+
+/-- `diff_layout_invariant`: replacing the second file by any file with the same format and logical content —
+    other begins, alignment, header free space, definition order — does not change whether a difference is
+    reported. -/
+theorem diff_layout_invariant (cfg : DiffCfg) (a b b' : LFile) (wa : LWF a) (wb : LWF b) (wb' : LWF b')
+    (ra : RecByDims a) (rb : RecByDims b) (rb' : RecByDims b') (nb : NoByte cfg a) (ag : LenAgree cfg a b)
+    (ag' : LenAgree cfg a b')
+    (hn : a.numrecs = b.numrecs) (E : LogicalEq b b') :
+    (toolDiff cfg a b).same = (toolDiff cfg a b').same := by
+  have h1 := diff_iff_logical_eq_partial cfg a b wa wb nb ag hn
+  have h2 := diff_iff_logical_eq_partial cfg a b' wa wb' nb ag' (hn.trans E.numrecs)
+  cases hx : (toolDiff cfg a b).same <;> cases hy : (toolDiff cfg a b').same
+  · rfl
+  · exact absurd (h1.mpr (LogicalEq.trans rb' ra (h2.mp hy) (LogicalEq.symm rb rb' E))) (by rw [hx]; simp)
+  · exact absurd (h2.mpr (LogicalEq.trans rb ra (h1.mp hx) E)) (by rw [hy]; simp)
+  · rfl
+
+/-- concrete layout change, full strength (the whole output, not only "same"): moving the data section of the
+    second file by any number of bytes — more header free space (h_minfree), another alignment of the first
+    variable — and adjusting every `begin` changes nothing in what either tool computes.  (`vsize` fields and
+    the bytes between header and data are never looked at by `absFile` at all.) -/
+theorem diff_layout_invariant_shift (cfg : DiffCfg) (a : LFile) (h : Hdr) (recsize : Nat) (pre gap rest : Bytes)
+    (hb : ∀ v ∈ h.vars, pre.length ≤ v.begin) :
+    toolDiff cfg a (absFile (shiftBegins gap.length h) recsize (pre ++ gap ++ rest)) =
+      toolDiff cfg a (absFile h recsize (pre ++ rest)) := by
+  rw [absFile_shift h recsize pre gap rest hb]
+
+/-! ### `diff_detects_single_edit`: one value, one attribute, one name, one dimension length -/
+
+theorem not_same_of_not_logicalEq (cfg : DiffCfg) (a b : LFile) (wa : LWF a) (wb : LWF b) (nb : NoByte cfg a)
+    (ag : LenAgree cfg a b) (hn : a.numrecs = b.numrecs) (hne : ¬ LogicalEq a b) : (toolDiff cfg a b).same = false := by
+  cases hs : (toolDiff cfg a b).same with
+  | false => rfl
+  | true => exact absurd ((diff_iff_logical_eq_partial cfg a b wa wb nb ag hn).mp hs) hne
+
+/-- one value of one variable differs (any type the tool compares, any record that exists) -/
+theorem diff_detects_value_edit (cfg : DiffCfg) (a b : LFile) (wa : LWF a) (wb : LWF b) (nb : NoByte cfg a)
+    (ag : LenAgree cfg a b) (hn : a.numrecs = b.numrecs) (nm : Bytes) (v w : LVar) (r : Nat)
+    (hv : findVar a.vars nm = some v) (hw : findVar b.vars nm = some w)
+    (hr : r < (if v.isRec then a.numrecs else 1)) (hd : v.data r ≠ w.data r) : (toolDiff cfg a b).same = false :=
+  not_same_of_not_logicalEq cfg a b wa wb nb ag hn (fun E => hd ((E.vars nm v w hv hw).data r hr))
+
+/-- one attribute differs (global, or of a variable present in both files): type, length or any value -/
+theorem diff_detects_attribute_edit (cfg : DiffCfg) (a b : LFile) (wa : LWF a) (wb : LWF b) (nb : NoByte cfg a)
+    (ag : LenAgree cfg a b) (hn : a.numrecs = b.numrecs) (an : Bytes)
+    (hd : findAtt a.gatts an ≠ findAtt b.gatts an ∨
+          ∃ nm v w, findVar a.vars nm = some v ∧ findVar b.vars nm = some w ∧ findAtt v.atts an ≠ findAtt w.atts an) :
+    (toolDiff cfg a b).same = false :=
+  not_same_of_not_logicalEq cfg a b wa wb nb ag hn (fun E => by
+    rcases hd with hd | ⟨nm, v, w, hv, hw, hd⟩
+    · exact hd (E.gatts an)
+    · exact hd ((E.vars nm v w hv hw).atts an))
+
+/-- one name differs: a variable, dimension or global attribute of one file has no namesake in the other -/
+theorem diff_detects_name_edit (cfg : DiffCfg) (a b : LFile) (wa : LWF a) (wb : LWF b) (nb : NoByte cfg a)
+    (ag : LenAgree cfg a b) (hn : a.numrecs = b.numrecs) (nm : Bytes)
+    (hd : (findVar a.vars nm).isSome ≠ (findVar b.vars nm).isSome ∨ (findDim a.dims nm).isSome ≠ (findDim b.dims nm).isSome ∨
+          (findAtt a.gatts nm).isSome ≠ (findAtt b.gatts nm).isSome) :
+    (toolDiff cfg a b).same = false :=
+  not_same_of_not_logicalEq cfg a b wa wb nb ag hn (fun E => by
+    rcases hd with hd | hd | hd
+    · exact hd (E.varsDef nm)
+    · exact hd (by rw [E.dims nm])
+    · exact hd (by rw [E.gatts nm]))
+
+/-- one dimension length differs -/
+theorem diff_detects_dimlen_edit (cfg : DiffCfg) (a b : LFile) (wa : LWF a) (wb : LWF b) (nb : NoByte cfg a)
+    (ag : LenAgree cfg a b) (hn : a.numrecs = b.numrecs) (nm : Bytes) (d e : Dim)
+    (hd : findDim a.dims nm = some d) (he : findDim b.dims nm = some e) (hs : d.size ≠ e.size) :
+    (toolDiff cfg a b).same = false :=
+  not_same_of_not_logicalEq cfg a b wa wb nb ag hn (fun E => by
+    have := E.dims nm
+    rw [hd, he] at this
+    cases this
+    exact hs rfl)
+
+/-! non-vacuity of the hypotheses of the partial theorems: recA / recC (one byte value differs) under cdfdiff -/
+example : NoByte cdfdiffCfg recA ∧ LenAgree cdfdiffCfg recA recC ∧ recA.numrecs = recC.numrecs ∧
+    (toolDiff cdfdiffCfg recA recC).same = false ∧ (toolDiff cdfdiffCfg recA recA).same = true :=
+  ⟨⟨fun h => absurd h (by decide), fun _ _ => ⟨fun h => absurd h (by decide), fun h => absurd h (by decide)⟩⟩,
+   lenAgree_of_stored _ _ _ rfl, rfl, by decide, by decide⟩
+
+/-! the same for ncmpidiff: an NC_INT record variable, one value changed in the second record -/
+def intA : LFile :=
+  { fmt := .cdf2, numrecs := 2, dims := [⟨[0x74], 0⟩, ⟨[0x78], 1⟩], gatts := [],
+    vars := [{ name := [0x76], xtype := .int, dims := [⟨[0x74], 0⟩, ⟨[0x78], 1⟩], isRec := true, atts := [⟨[0x75], .char, 1, [109]⟩],
+               data := fun r => if r < 2 then [0, 0, 0, UInt8.ofNat r] else [] }] }
+def intB : LFile :=
+  { fmt := .cdf2, numrecs := 2, dims := [⟨[0x74], 0⟩, ⟨[0x78], 1⟩], gatts := [],
+    vars := [{ name := [0x76], xtype := .int, dims := [⟨[0x74], 0⟩, ⟨[0x78], 1⟩], isRec := true, atts := [⟨[0x75], .char, 1, [109]⟩],
+               data := fun r => if r < 2 then [0, 0, 0, UInt8.ofNat (7 * r)] else [] }] }
+
+example : NoByte ncmpidiffCfg intA ∧ LenAgree ncmpidiffCfg intA intB ∧ intA.numrecs = intB.numrecs ∧
+    (toolDiff ncmpidiffCfg intA intB).same = false ∧ (toolDiff ncmpidiffCfg intA intA).same = true := by
+  have n1 : NoByte ncmpidiffCfg intA := by
+    refine ⟨fun _ x hx => ?_, fun v hv => ?_⟩
+    · simp [intA] at hx
+    · simp only [intA, List.mem_singleton] at hv
+      subst hv
+      exact ⟨fun _ => by decide, fun _ => by decide⟩
+  have n2 : LenAgree ncmpidiffCfg intA intB := by
+    refine ⟨by decide, fun v hv w hw _ => ?_⟩
+    simp only [intA, intB, List.mem_singleton] at hv hw
+    subst hv hw
+    decide
+  exact ⟨n1, n2, rfl, by decide, by decide⟩
+
 def obligations : List String := [
   "validate_accepts_encoded", "validate_accepts_layoutValid", "validate_sound_counterexample", "validate_sound_partial",
-  "validate_canonical", "validate_magic"
+  "validate_canonical", "validate_magic",
+  "diff_refl", "diff_complete", "diff_iff_logical_eq_counterexample_cdfdiff", "diff_iff_logical_eq_counterexample_ncmpidiff",
+  "diff_iff_logical_eq_partial", "cdfdiff_iff_logical_eq", "diff_symm_counterexample_cdfdiff", "diff_symm_partial",
+  "diff_layout_invariant", "diff_layout_invariant_shift", "diff_detects_value_edit", "diff_detects_attribute_edit",
+  "diff_detects_name_edit", "diff_detects_dimlen_edit"
 ]
 end PnVerif.Props.C20
